@@ -133,6 +133,17 @@ impl Registry {
                     write!(output, "{}", value)?;
                 }
             }
+            ConstValue::List(list) => {
+                // the items of a list argument are described by the same input value
+                output.push('[');
+                for (idx, item) in list.iter().enumerate() {
+                    if idx > 0 {
+                        output.push_str(", ");
+                    }
+                    self.stringify_input_value(output, meta_input_value, item)?;
+                }
+                output.push(']');
+            }
             _ => write!(output, "{}", value)?,
         }
 
